@@ -214,8 +214,21 @@ pub struct Drain<'a, K, V, S> {
 
 impl<'a, K, V, S> Drain<'a, K, V, S> {
     pub(crate) fn new(cache: &'a mut LruCache<K, V, S>) -> Drain<'a, K, V, S> {
+        let iterator = TakingIterator::new(cache);
+
+        // Set the cache as empty right away. If the Drain is leaked (e.g. by
+        // mem::forget), the remaining entries are leaked as well, but no
+        // entry that was already moved out is ever dropped again by the
+        // cache. The memory of the entries remains valid as long as the table
+        // is not modified, which the mutable borrow held by the Drain
+        // guarantees.
+        cache.seal.get_mut().next = cache.seal;
+        cache.seal.get_mut().prev = cache.seal;
+        cache.current_size = 0;
+        cache.table.clear_no_drop();
+
         Drain {
-            iterator: TakingIterator::new(cache),
+            iterator,
             cache
         }
     }
